@@ -708,6 +708,20 @@ impl Kernel {
         let mask = p.entries - 1;
         let e = unsafe { (p.ring_addr as *const Buf).add((p.head & mask) as usize).read() };
         p.head = p.head.wrapping_add(1);
+        if p.base.is_some()
+            && e.len == p.buf_size
+            && alloc::find(e.addr as usize).is_some_and(|(b, blk)| {
+                blk.state == alloc::BlockState::Live && e.addr as usize + e.len as usize <= b + blk.size
+            })
+        {
+            let bytes = unsafe { std::slice::from_raw_parts(e.addr as *const u8, e.len as usize) };
+            if let Some(pos) = bytes.iter().position(|b| *b != 0xC5) {
+                violation(
+                    "readbuf.neighbour-touched",
+                    format!("pool buffer #{} was modified at offset {pos} while it was offered to the kernel", e.bid),
+                );
+            }
+        }
         if p.handed_out.contains(&e.bid) {
             violation(
                 "pool.double-offer",
@@ -778,6 +792,16 @@ impl Kernel {
                             ),
                         );
                     }
+                }
+                // The kernel owns offered buffers: canary them, so a write by
+                // the application while they are offered is visible.
+                if p.base.is_some()
+                    && e.len == p.buf_size
+                    && alloc::find(e.addr as usize).is_some_and(|(b, blk)| {
+                        blk.state == alloc::BlockState::Live && e.addr as usize + e.len as usize <= b + blk.size
+                    })
+                {
+                    unsafe { std::ptr::write_bytes(e.addr as *mut u8, 0xC5, e.len as usize) };
                 }
                 if p.total_released >= u64::from(p.entries) {
                     // A release (not the initial fill).
@@ -1105,14 +1129,13 @@ impl Kernel {
                         .get("descriptor array", sqe.addr() as usize, 4, name)
                         .map(|b| i32::from_ne_bytes(b.try_into().unwrap()));
                     match src {
-                        Some(src) => match self.alloc_slot(r, kid) {
+                        // A queued request may have been overtaken by the
+                        // synchronous close fallback: EBADF, like the real kernel.
+                        Some(src) if src >= FD_BASE && !self.fds.get(&src).is_some_and(|i| i.open) => {
+                            res = -libc::EBADF;
+                        }
+                        Some(_) => match self.alloc_slot(r, kid) {
                             Ok(slot) => {
-                                if src >= FD_BASE && !self.fds.get(&src).is_some_and(|i| i.open) {
-                                    violation(
-                                        "fd.misowned",
-                                        format!("FILES_UPDATE registers descriptor fd#{} which is not open", src - FD_BASE),
-                                    );
-                                }
                                 self.put("descriptor array", sqe.addr() as usize, &(slot as i32).to_ne_bytes(), name);
                                 self.records[kid as usize].fds_issued.push((slot as i32, true));
                                 res = 1;
